@@ -134,6 +134,8 @@ class Env:
             return self.r
         if k == "lit":
             return val_py(t[1])
+        if k == "litexpr":
+            return R.LiteralExpr(val_py(t[1]))
         if k == "bin":
             return BIN[t[1]](self.build(t[2]), self.build(t[3]))
         if k == "un":
@@ -155,7 +157,7 @@ class Env:
             return self.box[t[1]]
         if k == "root":
             return self.box
-        if k == "lit":
+        if k in ("lit", "litexpr"):
             return val_py(t[1])
         if k == "bin":
             a, b = self.direct(t[2], guard), self.direct(t[3], guard)
@@ -214,6 +216,8 @@ def has_ref(t):
         return True
     if k == "lit":
         return False
+    if k == "litexpr":
+        return True          # a LiteralExpr is a deferred node although it reads nothing
     if k == "bin":
         return has_ref(t[2]) or has_ref(t[3])
     if k in ("un",):
@@ -350,6 +354,8 @@ def run_case(case, fail, stats):
             if want2[0] == "ok" and not same(got2[1], want2[1]):
                 fail("C05", "dependant-not-recomputed", {"term": t, "changed": name, "holds": describe(got2[1]),
                                                           "should_hold": describe(want2[1])})
+                fail("C01", "stale", {"definition": t, "assigned": name, "holds": describe(got2[1]),
+                                      "should_hold": describe(want2[1])})
     elif kind == "pickle":
         env = Env(case["vals"])
         t = case["term"]
@@ -438,6 +444,8 @@ def run_case(case, fail, stats):
         if json.dumps(case["t1"]) == json.dumps(case["t2"]):
             if not (a == b and hash(a) == hash(b) and (b in {a: 1})):
                 fail("C06", "identical-structure-not-equal", {"t": case["t1"], "eq": a == b, "hash_eq": hash(a) == hash(b)})
+        elif a == b or (b in {a: 1}):
+            fail("C06", "different-expressions-identified", {"t1": case["t1"], "t2": case["t2"], "printed": [str(a), str(b)]})
     elif kind == "print":
         env = Env(case["vals"])
         t = case["term"]
@@ -735,7 +743,8 @@ def cases_c04(rng, n):
     pairs = [({"int": 7}, {"int": 13}), ({"int": 7}, {"int": 0}), ({"int": -3}, {"int": 2}), ({"float": (2.5).hex()}, {"int": 2}),
              ({"int": 5}, {"float": (0.0).hex()}), ({"bool": True}, {"int": 3}), ({"complex": [(1.0).hex(), (2.0).hex()]}, {"int": 2}),
              ({"np": ["float64", 1.5]}, {"int": 2}), ({"np": ["int64", 6]}, {"np": ["int64", 4]}), ({"float": (7.25).hex()}, {"float": (-0.5).hex()}),
-             ({"int": 2}, {"int": -1}), ({"int": 0}, {"int": 0})]
+             ({"int": 2}, {"int": -1}), ({"int": 0}, {"int": 0}),
+             ({"int": 10 ** 400}, {"float": (2.5).hex()}), ({"float": (3.0).hex()}, {"int": 10 ** 400}), ({"int": 10 ** 400}, {"int": 7})]
     for op in BIN:
         if op == "matmul":
             continue
@@ -791,6 +800,19 @@ def cases_c05(rng, n):
     for t in [["builtin", "round", ["ref", "v0"], [["ref", "v1"]]], ["builtin", "divmod", ["ref", "v0"], [["ref", "v1"]]],
               ["call", "fadd", [["ref", "v0"]], [["y", ["ref", "v1"]], ["z", ["ref", "v2"]]]],
               ["item", ["ref", "L"], ["bin", "mod", ["ref", "v1"], ["lit", {"int": 4}]]],
+              ["bin", "mul", ["builtin", "abs", ["ref", "v1"], []], ["lit", {"int": 2}]],
+              ["bin", "add", ["lit", {"int": 1}], ["builtin", "round", ["ref", "v1"], [["lit", {"int": 1}]]]],
+              ["call", "fpow", [["bin", "mul", ["lit", {"int": 3}], ["ref", "v1"]]], []],
+              ["call", "fadd", [["bin", "add", ["un", "neg", ["lit", {"int": 1}]], ["ref", "v1"]]], [["y", ["lit", {"int": 2}]]]],
+              ["builtin", "abs", [["bin", "sub", ["lit", {"int": 1}], ["ref", "v1"]]][0], []],
+              ["item", ["ref", "L"], ["bin", "add", ["lit", {"int": 0}], ["bin", "mod", ["ref", "v1"], ["lit", {"int": 3}]]]],
+              ["call", "fpow", [["bin", "mul", ["litexpr", {"int": 3}], ["ref", "v1"]]], []],
+              ["builtin", "abs", ["bin", "mul", ["litexpr", {"int": 3}], ["ref", "v1"]], []],
+              ["builtin", "round", ["ref", "v0"], [["bin", "add", ["litexpr", {"int": 0}], ["ref", "v1"]]]],
+              ["item", ["ref", "L"], ["bin", "add", ["litexpr", {"int": 0}], ["bin", "mod", ["ref", "v1"], ["lit", {"int": 3}]]]],
+              ["call", "fpow", [["bin", "mul", ["un", "neg", ["litexpr", {"int": 3}]], ["ref", "v1"]]], []],
+              ["call", "fpow", [["bin", "mul", ["root"], ["ref", "v1"]]], []],
+              ["call", "fadd", [["ref", "v0"]], [["y", ["bin", "mul", ["root"], ["ref", "v1"]]]]],
               ["un", "neg", ["ref", "v1"]], ["un", "neg", ["root"]], ["un", "pos", ["root"]],
               ["bin", "add", ["root"], ["lit", {"int": 1}]], ["builtin", "abs", ["root"], []]]:
         yield {"kind": "deps", "vals": {"v0": {"float": (12.345).hex()}, "v1": {"int": 1}, "v2": {"int": 5}, "v3": {"int": 2}},
@@ -848,6 +870,13 @@ def cases_c06(rng, n):
         vals = gen_vals(rng, ["int"])
         t = gen_term(rng, rng.randint(1, 4))
         yield {"kind": "exprhash", "vals": vals, "t1": t, "t2": t}
+    # distinct expressions with colliding hashes must stay distinct
+    for op in ["mul", "add", "sub"]:
+        for a, b in [({"int": -1}, {"int": -2}), ({"int": 1}, {"float": (1.0).hex()}), ({"int": 5}, {"int": 5 + 2 ** 61 - 1})]:
+            yield {"kind": "exprhash", "vals": gen_vals(rng, ["int"]), "t1": ["bin", op, ["ref", "v1"], ["lit", a]],
+                   "t2": ["bin", op, ["ref", "v1"], ["lit", b]]}
+    for a, b in [(-1, -2), (0, 2 ** 61 - 1)]:
+        yield {"kind": "eqhash", "p": [["i", "k"], ["i", a]], "q": [["i", "k"], ["i", b]]}
     yield {"kind": "eqhash", "p": [["i", "a"]], "q": [["i", "a"]], "label": "c", "label2": "d"}
     yield {"kind": "eqhash", "p": [["a", "a"]], "q": [["i", "a"]], "label": "c", "label2": "c"}
 
@@ -866,6 +895,18 @@ def cases_c11(rng, n):
              ["call", "fpow", [["ref", "v0"]], [["y", ["lit", {"int": 3}]]]],
              ["item", ["ref", "D"], ["lit", {"str": "k'"}]], ["item", ["ref", "L"], ["lit", {"int": -1}]],
              ["attr", ["ref", "o"], "u"], ["item", ["ref", "D"], ["lit", {"str": "p"}]]]
+    # expressions that differ only in constants with equal hashes (hash(-1) == hash(-2), hash(1) == hash(1.0) ==
+    # hash(True), hash(n) == hash(n + 2**61 - 1)): anything keyed by the structural hash confuses them
+    for op in ["mul", "add", "sub", "pow", "truediv", "lt"]:
+        for a, b in [({"int": -1}, {"int": -2}), ({"int": 1}, {"float": (1.0).hex()}), ({"int": 1}, {"bool": True}),
+                     ({"int": 5}, {"int": 5 + 2 ** 61 - 1}), ({"int": 0}, {"float": (-0.0).hex()})]:
+            for x in (a, b):
+                if not (op == "pow" and abs(x.get("int", 0)) > 100):      # 2 ** (2**61) would never finish
+                    fixed.append(["bin", op, ["ref", "v1"], ["lit", x]])
+                fixed.append(["bin", op, ["lit", x], ["ref", "v1"]])
+    for x in [{"int": -1}, {"int": -2}]:
+        fixed.append(["item", ["ref", "L"], ["lit", x]])
+        fixed.append(["call", "fadd", [["ref", "v0"], ["lit", x]], []])
     vals0 = {"v0": {"float": (12.345).hex()}, "v1": {"int": 2}, "v2": {"int": 5}, "v3": {"int": 3}}
     for t in fixed:
         yield {"kind": "print", "vals": vals0, "term": t}
